@@ -87,6 +87,41 @@ func runCRDTStable(c *core.Ctx) {
 			})
 		}
 	}
+	// ... and the Value field of an argument / reply is never (re)assigned from anything else afterwards
+	for _, tn := range []string{"ReceiveValueArgs", "ReceiveValueResp"} {
+		t := e.Ix.LookupType(an.PkgResources, tn)
+		if t == nil {
+			continue
+		}
+		vf := an.Field(t, "Value")
+		if vf == nil {
+			continue
+		}
+		for _, f := range pk.Files {
+			ast.Inspect(f, func(m ast.Node) bool {
+				as, ok := m.(*ast.AssignStmt)
+				if !ok {
+					return true
+				}
+				for i, l := range as.Lhs {
+					if an.SelectedField(pk.Info, l) != vf {
+						continue
+					}
+					n++
+					key := fmt.Sprintf("%s:%s.Value=#%d", enclosingFuncName(pk, f, as), tn, n)
+					okv := false
+					if len(as.Rhs) == len(as.Lhs) {
+						if call, isCall := an.Unparen(as.Rhs[i]).(*ast.CallExpr); isCall && an.CalleeFunc(pk.Info, call) == stable.Obj {
+							okv = true
+						}
+					}
+					c.Check(okv, key, as.Pos(), "the state sent is getStableValue()",
+						"the Value of a CRDT message is assigned something other than getStableValue(): the uncommitted writes of a section in flight reach a peer and cannot be taken back if the section aborts")
+				}
+				return true
+			})
+		}
+	}
 	if n < 2 {
 		c.Lost("ReceiveValue literals", "expected >= 2 ReceiveValueArgs/Resp literals, found %d", n)
 	}
